@@ -24,8 +24,10 @@ LEVEL = "fault_enumeration"
 RULE = ("part A enumerates (session state in {NOT SELECTED, SELECTED}) x (11 inbound streams: control and data frames, "
         "2- and 3-frame concatenations, an over-long length field) x (every byte offset 0..len) x (peer close, local "
         "disable, close+reconnect) x (3 segmentations of the prefix); part B samples real-socket scenarios (cut offsets, "
-        "disable during connect / after accept / with a half-received frame / after the peer closed, repeated cycles) "
-        "with seeded yield injection; distinct by (state, stream, offset, follow-up, segmentation | scenario, seed); "
+        "disable during connect / after accept / with a half-received frame / after the peer closed, repeated cycles, "
+        "also with a slow application 'disconnected' handler while the peer reconnects at once) with seeded yield injection, "
+        "half of them with the disabling thread slowed to milliseconds per yield, plus forced schedules (disable() held at its "
+        "stop-flag statement until the listen/connect thread has ended); distinct by (state, stream, offset, follow-up, segmentation | scenario, seed); "
         "non-trivial when the cut falls inside a frame or a disable races with connection set-up")
 ASSUMPTIONS = ["the in-memory connection reproduces TcpConnection's callback contract (see lib/pipe.py)",
                "a close sequence that has not finished after the watchdog is a violation only if every thread is parked in the "
@@ -305,9 +307,16 @@ def _scenario_b(ctx, inj, idx, state):
     port = _free_port(ctx)
     ep = RealEndpoint(active, port)
     kind = rng.choice(["cut_then_peer_close", "cut_then_disable", "disable_during_connect", "disable_right_after_accept",
-                       "peer_closes_first_then_disable", "cycles"])
+                       "peer_closes_first_then_disable", "cycles", "cycles"])
     seed = rng.getrandbits(32)
     wit = {"mode": "active" if active else "passive", "scenario": kind, "schedule_seed": seed}
+    if kind == "cycles" and rng.random() < 0.5:
+        # an application handler of the 'disconnected' event takes its time while the peer comes back at once: the new
+        # connection must not run into the end of the old one
+        pause = rng.choice([0.02, 0.1, 0.3])
+        ep.protocol.events.disconnected += lambda d: time.sleep(pause)
+        wit["slow_disconnected_handler_s"] = pause
+        ctx.count("partB.cycles_with_slow_disconnected_handler")
     listener = None
     if active:
         listener = socket.socket()
@@ -315,7 +324,11 @@ def _scenario_b(ctx, inj, idx, state):
         listener.bind(("127.0.0.1", port))
         listener.listen(4)
         listener.settimeout(4.0)
-    inj.begin(seed, p=rng.choice([0.0, 0.1, 0.3]))
+    # half of the schedules bias the race between disable() and the end of the connect / accept thread: the thread that
+    # calls disable() pauses for milliseconds (instead of microseconds) at the injected yields
+    bias = rng.random() < 0.5
+    wit["disable_thread_slowed"] = bias
+    inj.begin(seed, p=rng.choice([0.0, 0.1, 0.3]) if not bias else rng.choice([0.2, 0.4]), slow=("harness-call",) if bias else ())
 
     def peer_connect():
         if active:
@@ -408,7 +421,7 @@ def _scenario_b(ctx, inj, idx, state):
                     sock.close()
                     end = time.monotonic() + 5
                     while time.monotonic() < end and ep.state != NC:
-                        time.sleep(0.01)
+                        time.sleep(0.001)
                     if ep.state != NC:
                         ths = [t for t in threading.enumerate() if t.name.startswith("secsgem_tcpConnection_receiver")]
                         fail("close-sequence-after-partial-frame", ths or [threading.current_thread()])
@@ -460,7 +473,109 @@ def _spinning(threads, samples=5, span=2.0):
     return not others
 
 
+def stuck_stack(th):
+    import sys
+    import traceback
+    fr = sys._current_frames().get(th.ident)
+    return [f"{f.filename.split('/')[-1]}:{f.lineno} {f.name}" for f in traceback.extract_stack(fr)[-5:]] if fr else []
+
+
+def _forced_disable_race(ctx, active):
+    """Injected delay at a suspension point: the thread that calls disable() is held at the statement that sets the stop flag
+    until the listen / connect thread - which has just got its connection - has ended. disable() must still return."""
+    import sys
+
+    port = _free_port(ctx)
+    ep = RealEndpoint(active, port)
+    fname = "tcp_client_connection" if active else "tcp_server_connection"
+    needle = "stop_connection_thread = True" if active else "_stop_server_thread = True"
+    attr = "connection_thread" if active else "_server_thread"
+    reached = threading.Event()
+    released = threading.Event()
+
+    def tracer(frame, event, arg):
+        if frame.f_code.co_name != "disable" or fname not in frame.f_code.co_filename:
+            return None
+        try:
+            with open(frame.f_code.co_filename) as fh:
+                lines = fh.readlines()
+        except OSError:
+            return None
+
+        def line(frame, event, arg):
+            if event == "line" and needle in lines[frame.f_lineno - 1] and not reached.is_set():
+                reached.set()
+                thread = getattr(frame.f_locals["self"], attr, None)
+                end = time.monotonic() + 6
+                while thread is not None and thread.is_alive() and time.monotonic() < end:
+                    time.sleep(0.001)
+                released.set()
+            return line
+        return line
+
+    listener = None
+    peer = None
+    wit = {"mode": "active" if active else "passive", "scenario": "forced: disable() held at the stop flag until the thread ended"}
+    try:
+        ep.protocol.enable()
+        time.sleep(0.3)
+
+        @stuck.harness_thread
+        def run():
+            sys.settrace(tracer)
+            try:
+                ep.protocol.disable()
+            finally:
+                sys.settrace(None)
+        th = threading.Thread(target=run, daemon=True, name="harness-call-forced")
+        th.start()
+        if not reached.wait(3.0):
+            ctx.count("partB.forced_race_probe_not_reached")      # the statement does not exist (any more): nothing to force
+            th.join(5)
+            return
+        if active:
+            listener = socket.socket()
+            listener.setsockopt(socket.SOL_SOCKET, socket.SO_REUSEADDR, 1)
+            listener.bind(("127.0.0.1", port))
+            listener.listen(2)
+            listener.settimeout(5.0)
+            try:
+                peer, _ = listener.accept()
+            except OSError:
+                peer = None
+        else:
+            try:
+                peer = socket.create_connection(("127.0.0.1", port), timeout=2.0)
+            except OSError:
+                peer = None
+        released.wait(8.0)
+        th.join(6.0)
+        ctx.count("partB.forced_race_probes")
+        ctx.case(("B-forced", active), nontrivial=True)
+        if th.is_alive():
+            worker = getattr(ep.conn, attr, None)
+            th.join(3.0)
+            # the only thread that clears the flag disable() waits for is gone: nobody is left to end the wait
+            if th.is_alive() and released.is_set() and worker is not None and not worker.is_alive():
+                ctx.violation("B:disable-never-returns-when-the-listen-or-connect-thread-ended-first",
+                              {**wit, "peer_connected": peer is not None, "disable_stack": stuck_stack(th)})
+            elif not th.is_alive():
+                pass
+            else:
+                ctx.unsure(f"forced disable race: disable() still running after 6 s: {wit}")
+    finally:
+        for sck in (peer, listener):
+            if sck is not None:
+                try:
+                    sck.close()
+                except OSError:
+                    pass
+        _call(ep.protocol.disable, 2.0)
+
+
 def part_b(ctx, n):
+    if ctx.shard < 4:
+        _forced_disable_race(ctx, active=ctx.shard % 2 == 0)
     inj = sched.YieldInjector(["secsgem/common/tcp_connection.py", "secsgem/common/tcp_server_connection.py",
                                "secsgem/common/tcp_client_connection.py"])
     inj.install()
@@ -477,4 +592,4 @@ def part_b(ctx, n):
 def run(ctx):
     vtime.install()
     part_a(ctx)
-    part_b(ctx, 3 if ctx.quick else 120)
+    part_b(ctx, 12 if ctx.quick else 150)
